@@ -228,7 +228,9 @@ public:
 		memcpy(new_buffer + _length, other.data(), sizeof(Char) * other.size());
 		new_buffer[new_length] = 0;
 
-		return basic_string(_allocator, new_buffer, new_length);
+		basic_string result(_allocator, new_buffer, new_length);
+		_allocator.free(new_buffer);
+		return result;
 	}
 
 	// TODO: Inefficient. Does two copies (one here, one in constructor).
@@ -240,7 +242,9 @@ public:
 		new_buffer[_length] = c;
 		new_buffer[new_length] = 0;
 
-		return basic_string(_allocator, new_buffer, new_length);
+		basic_string result(_allocator, new_buffer, new_length);
+		_allocator.free(new_buffer);
+		return result;
 	}
 
 	void push_back(Char c) {
